@@ -35,6 +35,11 @@ CHECKS = {
    text="TLC explores one or two corruptions of any field (key, counts, table rows, input labels, OT outcome, offset/count, returned output labels, result) over all small circuits and shows the garbler's BitFromLabel/range checks make a wrong value impossible; on the real code each (direction, byte offset, mask/burst) coordinate is one complete session in a child process under an address-space limit; the garbler's outcome class per field class is checked against the model and a returned value must be the correct one.",
    note="Trusts TLC, the symbolic-label abstraction (a corrupted label never equals the sibling label), the stall detector of the harness transport.",
    ref="5 C16"),
+ "C05": dict(
+   technique="TLA+ spec Stream.tla (Program.GC placement + wire-id allocator, as coded) model-checked by TLC over all small SSA programs (NoClobber/NoLiveOnFree); generated alias-heavy MPCL programs run in streaming and whole-circuit mode on the real code; the steps Program.Stream executes (verif hook) validated by TLC against the dataflow discipline of StreamTrace.tla",
+   text="TLC enumerates every SSA program of up to 3 steps (5 in simulation) over arithmetic/alias/concat steps and two value sizes and checks that GC placement plus LIFO id recycling never lets a step read a recycled wire (it produces the counterexamples of the two repaired defects when the model is set back); on the real code templates and seeded generated programs (incl. > 65535 live ids) are streamed and compared, for both parties, values and output types, with Compile+Compute; every recorded step of real runs is checked by TLC: each wire read must still hold what its producer wrote.",
+   note="Trusts TLC, whole-circuit Compute as reference, the verif hook in Program.Stream (1 add-only call).",
+   ref="5 C05"),
 }
 
 NOT_APPLICABLE = {}
